@@ -156,3 +156,20 @@ Definition bw_batch_map_to_scalar (ps : list element) : list Fr :=
   let yinvs := batch_invert fpo (map (fun p : element => let '(_, Y, _) := p in Y) ps) in
   map (fun py : element * Fp =>
          let '((X, _, _), yi) := py in fr (zval (zq_mul X yi))) (combine ps yinvs).
+
+(* ---- BatchNormalize over a store of elements addressed by index (pointer) ----
+   The code de-duplicates the pointers with a map, fails without touching anything
+   if some pointed element has Z = 0, and otherwise normalises every pointed
+   element; [idxs] is the pointer list in ANY enumeration order, duplicates allowed. *)
+Definition zcoord_of (p : element) : Fp := let '(_, _, Z) := p in Z.
+Fixpoint set_nth {A} (l : list A) (k : nat) (v : A) : list A :=
+  match l, k with
+  | [], _ => []
+  | _ :: l', O => v :: l'
+  | x :: l', S k' => x :: set_nth l' k' v
+  end.
+Definition norm1 (p : element) : element :=
+  match bw_normalize p with Some q => q | None => p end.
+Definition bw_batch_normalize (st : list element) (idxs : list nat) : option (list element) :=
+  if existsb (fun i => zq_is_zero (zcoord_of (nth i st bw_identity))) idxs then None
+  else Some (fold_left (fun s i => set_nth s i (norm1 (nth i s bw_identity))) idxs st).
